@@ -160,6 +160,56 @@ theorem c10_int_literal (sign : List Char) (hs : sign = [] ∨ sign = ['-'] ∨ 
     · have : ¬ digitsVal (d :: ds) 0 ≤ 9223372036854775807 := by omega
       simp [this]
 
+/-! ### types -/
+
+/-- Rendering of a type that is not a container and has no annotations: its name. -/
+def renderSimple : Ty → Option (List Char)
+  | .base n [] => some n
+  | .named n => some n
+  | _ => none
+
+/-- A base type name of the grammar, or an identifier that has none of the grammar's type
+keywords as a prefix of the text it starts (the hypothesis that excludes the recorded finding
+keyword-prefix-identifier). -/
+def SimpleTypeOk (ty : Ty) (rest : List Char) : Prop :=
+  match ty with
+  | .base n [] => n ∈ baseNames
+  | .named n => IdentShape n ∧ NoTypeKeywordPrefix (n ++ rest)
+  | _ => False
+
+/-- Round trip of `FieldType` for every base type name and every named type (any identifier,
+also qualified `inc.Name`), followed by `>`, `,` or the end of the text: parsing the rendered type
+consumes exactly it and the actions give the type back (fuel `|text| + 40` suffices).
+PARTIAL: container types (arbitrary nesting, white space inside the brackets) and annotations are
+covered by the correspondence of suite c10 and by `c10_type_nested_example`, not by this theorem;
+without the keyword hypothesis the statement is false (`c10_type_roundtrip_counterexample`). -/
+theorem c10_type_roundtrip_partial (ty : Ty) (txt rest : List Char) (hr : renderSimple ty = some txt)
+    (hok : SimpleTypeOk ty rest) (hstop : StopHead rest) (F : Nat) (hF : txt.length + 40 ≤ F) :
+    ∃ t, parse F grammar "FieldType" (txt ++ rest) = .ok t rest ∧ evTy (tyFuel t) t = some ty := by
+  cases ty with
+  | base n anns =>
+    cases anns with
+    | nil =>
+      simp only [renderSimple, Option.some.injEq] at hr
+      subst hr
+      exact ⟨baseTree n, fieldType_base n hok rest hstop F (by omega), evTy_baseTree n _⟩
+    | cons a t => simp [renderSimple] at hr
+  | named n =>
+    simp only [renderSimple, Option.some.injEq] at hr
+    subst hr
+    obtain ⟨⟨c, s, rfl, hc, hs⟩, hno⟩ := hok
+    obtain ⟨t, h1, h2⟩ := fieldType_named c s rest hc hs hno hstop F (by simp at hF; omega)
+    exact ⟨t, h1, h2 _⟩
+  | list e a => simp [renderSimple] at hr
+  | set e a => simp [renderSimple] at hr
+  | map k v a => simp [renderSimple] at hr
+
+/-- The hypotheses are satisfiable: `base.Item` before `>` is a named type the theorem applies to. -/
+example : SimpleTypeOk (.named "base.Item".toList) ['>'] ∧ StopHead ['>'] := by
+  refine ⟨⟨⟨'b', "ase.Item".toList, rfl, by decide, by decide⟩, ?_⟩, ?_⟩
+  · unfold NoTypeKeywordPrefix; decide
+  intro c r h; simp at h; exact Or.inl h.1.symm
+
 /-! ### types: concrete instances evaluated by the kernel -/
 
 /-- `FieldType` on `inp` yields exactly `ty` and leaves `rest` (decidable, evaluated with fuel `fuel`). -/
